@@ -663,6 +663,10 @@ func (ev *astEnv) call(n *ast.CallExpr) Value {
 				return x.Cap
 			case *StringV:
 				return x.Len
+			case *OpaqueV:
+				if b.Name() == "len" {
+					return ev.e.mapLen(ev.s, x)
+				}
 			}
 			t := ev.typeOf(n.Args[0]).Underlying()
 			if p, ok := t.(*types.Pointer); ok {
@@ -754,6 +758,13 @@ func (ev *astEnv) call(n *ast.CallExpr) Value {
 			return False
 		}
 		return c.And(c.Eq(a.Off, b.Off), c.Eq(a.Len, b.Len))
+	case "verif_samemap":
+		a, ok1 := ev.eval(n.Args[0]).(*OpaqueV)
+		b, ok2 := ev.eval(n.Args[1]).(*OpaqueV)
+		if !ok1 || !ok2 {
+			panic(unsupported("samemap of non-maps"))
+		}
+		return c.Or(c.And(a.Nil, b.Nil), c.And(c.Not(a.Nil), c.Not(b.Nil), c.Eq(a.ID, b.ID)))
 	case "verif_rangeidx":
 		// number of completed iterations of the range loop whose invariant is being evaluated
 		if ev.loop != nil && ev.loop.rangeIdx != nil && ev.f != nil {
